@@ -10,5 +10,5 @@ META = dict(
 
 
 def run(chk):
-    shapework.run(chk, 'C05', 1600, 60000, synth=True, synth_kinds=('hostile', 'c06'))
+    shapework.run(chk, 'C05', 1600, 150000, synth=True, synth_kinds=('hostile', 'c06'))
     chk.require(chk.tot.get('segs_length_changed', 0) > 500, 'too few segments whose length changed')
